@@ -308,8 +308,49 @@ func Border(rng *fw.Rng, W int64) Poly {
 	return Poly{pts}
 }
 
+// Moat: nested topology. A land rectangle with a C-shaped moat hole that leaves an island attached to the land by a thin
+// bridge (1-3 q wide), and a lake (hole) on the island. When the bridge collapses the island becomes a second outer ring
+// nested inside the land's moat hole, and the lake has to be matched to the island, not to the land.
+// u = lattice units per "cell" of the construction (4 = one finest pixel).
+func Moat(rng *fw.Rng, W int64) Poly {
+	u := int64(fw.Pick(rng, []int{2, 4, 4, 4, 8}))
+	lake := int64(3+rng.Intn(3)) * u
+	im := int64(1+rng.Intn(2)) * u // island margin around the lake
+	mw := int64(1+rng.Intn(3)) * u // moat width
+	lm := int64(1+rng.Intn(2)) * u // land margin around the moat
+	b0 := lm + mw
+	b1 := b0 + 2*im + lake
+	a0, a1 := lm, b1+mw
+	s1 := a1 + lm
+	bw := int64(1 + rng.Intn(3)) // bridge width in q
+	c := b0 + 1 + rng.Int63n(max(b1-b0-bw-1, 1))
+	shell := []P{{0, 0}, {s1, 0}, {s1, s1}, {0, s1}}
+	moat := []P{{a1, c + bw}, {a1, a1}, {a0, a1}, {a0, a0}, {a1, a0}, {a1, c}, {b1, c}, {b1, b0}, {b0, b0}, {b0, b1}, {b1, b1}, {b1, c + bw}}
+	l0 := b0 + im
+	lk := []P{{l0, l0}, {l0 + lake, l0}, {l0 + lake, l0 + lake}, {l0, l0 + lake}}
+	p := Poly{shell, moat, lk}
+	if rng.Chance(1, 3) { // a second lake-less island variant: drop the lake
+		p = Poly{shell, moat}
+	}
+	// rotate by k*90 degrees about the centre and start every ring at a random vertex
+	k := rng.Intn(4)
+	for ri := range p {
+		for vi, v := range p[ri] {
+			x, y := v[0], v[1]
+			for r := 0; r < k; r++ {
+				x, y = s1-y, x
+			}
+			p[ri][vi] = P{x, y}
+		}
+		st := rng.Intn(len(p[ri]))
+		p[ri] = append(append([]P{}, p[ri][st:]...), p[ri][:st]...)
+	}
+	_ = W
+	return p
+}
+
 // Kinds lists all generator names.
-var Kinds = []string{"star", "comb", "sliver", "angle", "rectholes", "spiky", "grow", "junk", "motif", "border"}
+var Kinds = []string{"star", "comb", "sliver", "angle", "rectholes", "spiky", "grow", "junk", "motif", "border", "moat"}
 
 // ByName runs a generator.
 func ByName(name string, rng *fw.Rng, W int64) Poly {
@@ -334,6 +375,8 @@ func ByName(name string, rng *fw.Rng, W int64) Poly {
 		return Motif(rng, W)
 	case "border":
 		return Border(rng, W)
+	case "moat":
+		return Moat(rng, W)
 	}
 	panic("unknown generator " + name)
 }
